@@ -3,7 +3,8 @@
     findings — the model proves absence of panics, not termination within a
     stack budget; both are also exercised in child processes, debug and release).  Statements only. *)
 From JP Require Import Base F64 Value Sig Slice Functions Interp Spec.SliceSpec Spec.Semantics Spec.SigSpec
-     Lexer Parser Proofs.InterpProof Proofs.TotalProof Proofs.ParseErrProof Proofs.CmpProof Proofs.NoTrapProof.
+     Lexer Parser JsonRead Proofs.InterpProof Proofs.TotalProof Proofs.ParseErrProof Proofs.CmpProof Proofs.NoTrapProof
+     Proofs.FuelProof Proofs.ParseFuelProof.
 
 (** Slices return for the whole 32-bit range of start/stop/step (no overflow, no out-of-bounds index, no loop). *)
 Theorem C05_slice_returns : forall (A : Type) (arr : list A) start stop step, i32_min <= step -> step <> 0 -> returns (slice arr start stop step).
@@ -62,3 +63,36 @@ Theorem C05_evaluation_preserves_safety : forall n rt, registry_safe rt = true -
   forall d e o, vok d = true -> tree_ok e = true -> good (interp n rt d e o).
 Proof. exact interp_good. Qed.
 Print Assumptions C05_evaluation_preserves_safety.
+
+(** compile terminates: the loops of the JSON reader, the lexer and the parser
+    all consume input, and the fuel the model runs them on (linear in the input:
+    4 + 2 n characters, n + 1 characters, 64 + 24 n tokens) is never exhausted —
+    the out-of-fuel outcome of the model is unreachable for compile, on every
+    input string, for every binding-power table. *)
+Theorem C05_json_reader_terminates : forall s, from_json s <> OOF.
+Proof. exact from_json_never_out_of_fuel. Qed.
+Print Assumptions C05_json_reader_terminates.
+
+Theorem C05_tokenize_terminates : forall s, tokenize s <> OOF.
+Proof. exact tokenize_never_out_of_fuel. Qed.
+Print Assumptions C05_tokenize_terminates.
+
+Theorem C05_parser_terminates : forall L STOP strict toks, parse_tokens L STOP strict (parse_fuel toks) toks <> OOF.
+Proof. exact parse_tokens_never_out_of_fuel. Qed.
+Print Assumptions C05_parser_terminates.
+
+Theorem C05_compile_terminates : forall s, parse s <> OOF.
+Proof. exact parse_never_out_of_fuel. Qed.
+Print Assumptions C05_compile_terminates.
+
+(** so compile returns an expression or a parse error (or the model declines:
+    [Unmodelled], only for a literal number needing more than six rounds of
+    scaling, which the JSON reader never needs — measured, not proved). *)
+Theorem C05_compile_total : forall s,
+  (exists t, parse s = Ok t) \/ (exists p, parse s = Err (EParse p)) \/ parse s = Unmodelled.
+Proof.
+  intros s. pose proof (compile_never_traps s) as H1. pose proof (parse_never_out_of_fuel s) as H2.
+  pose proof (compile_errors_are_parse_errors s) as H3.
+  destruct (parse s) as [t|e| | |]; [left; eauto| right; left; destruct (H3 e eq_refl) as [p ->]; eauto | contradiction | contradiction | right; right; reflexivity].
+Qed.
+Print Assumptions C05_compile_total.
